@@ -1,5 +1,6 @@
 #!/bin/bash
-# usage: tools/seedtest.sh <patch.diff> <prop> [<prop>...]   apply patch to /repo, run checks, undo
+# usage: tools/seedtest.sh <patch.diff> <prop> [<prop>...]   apply patch to /repo, run checks, undo,
+# then re-run the checks on the clean tree so that evidence files come from the unchanged tree again
 set -u
 patch="$1"; shift
 cd /verif
@@ -9,3 +10,4 @@ for p in "$@"; do
   ./check "$p" ${TIER:+--tier $TIER}; echo "rc($p)=$?"
 done
 git -C /repo checkout -- .
+for p in "$@"; do ./check "$p" >/dev/null 2>&1 || echo "WARNING: $p not clean after undo"; done
